@@ -121,47 +121,57 @@ Ltac phases :=
   repeat first [ rewrite P_mid by side | rewrite P_end by side | rewrite P_cc by side | rewrite P_nil ].
 Ltac leaf :=
   first [rewrite parse_hex_start by assumption | rewrite model_parse_cc]; phases; reflexivity.
-Ltac split_zeros :=
-  repeat match goal with
-         | |- context [if N.eqb ?x 0 then _ else _] =>
-             is_var x; destruct x as [|?p]; cbn [N.eqb]; cbv iota
-         end.
-
-Ltac destruct8 a H :=
-  destruct a as [|?x0 a]; [discriminate H|]; destruct a as [|?x1 a]; [discriminate H|];
-  destruct a as [|?x2 a]; [discriminate H|]; destruct a as [|?x3 a]; [discriminate H|];
-  destruct a as [|?x4 a]; [discriminate H|]; destruct a as [|?x5 a]; [discriminate H|];
-  destruct a as [|?x6 a]; [discriminate H|]; destruct a as [|?x7 a]; [discriminate H|];
-  destruct a as [|?x8 a]; [|discriminate H]; clear H.
+(* x is the next piece after the compressed position: if it is zero it is skipped as well and the
+   analysis continues with k, otherwise the rest of the text is determined *)
+Ltac dz x k := destruct x as [|?p]; cbn [N.eqb]; cbv iota; [k | leaf].
 
 Ltac invF := repeat match goal with H : Forall _ (_ :: _) |- _ => inversion H; clear H; subst end.
 
 Lemma rt_model_none a : length a = 8%nat -> Forall (fun p => p < 65536) a ->
   Verif.Model.Host.ipv6_parse (IPv6.ser_loop a 0 None false) = inl a.
 Proof.
-  intros H F. destruct8 a H. invF.
+  intros H F.
+  destruct a as [|x0 a]; [discriminate H|]. destruct a as [|x1 a]; [discriminate H|].
+  destruct a as [|x2 a]; [discriminate H|]. destruct a as [|x3 a]; [discriminate H|].
+  destruct a as [|x4 a]; [discriminate H|]. destruct a as [|x5 a]; [discriminate H|].
+  destruct a as [|x6 a]; [discriminate H|]. destruct a as [|x7 a]; [discriminate H|].
+  destruct a as [|x8 a]; [|discriminate H]. clear H. invF.
   cbn [IPv6.ser_loop andb Nat.eqb app].
   leaf.
 Qed.
 
-Ltac one_i Hz :=
+Ltac start_i Hz :=
   cbn [nth] in Hz; subst;
-  cbn [IPv6.ser_loop andb Nat.eqb app N.eqb];
-  split_zeros; leaf.
+  cbn [IPv6.ser_loop andb Nat.eqb app N.eqb].
 
+(* any zero position may be compressed (the serializer picks one by find_compress) *)
 Lemma rt_model_some a i : length a = 8%nat -> Forall (fun p => p < 65536) a ->
   (i < 8)%nat -> nth i a 1 = 0 ->
   Verif.Model.Host.ipv6_parse (IPv6.ser_loop a 0 (Some i) false) = inl a.
 Proof.
-  intros H F Hi Hz. destruct8 a H. invF.
-  destruct i as [|i]; [one_i Hz|].
-  destruct i as [|i]; [one_i Hz|].
-  destruct i as [|i]; [one_i Hz|].
-  destruct i as [|i]; [one_i Hz|].
-  destruct i as [|i]; [one_i Hz|].
-  destruct i as [|i]; [one_i Hz|].
-  destruct i as [|i]; [one_i Hz|].
-  destruct i as [|i]; [one_i Hz|].
+  intros H F Hi Hz.
+  destruct a as [|x0 a]; [discriminate H|]. destruct a as [|x1 a]; [discriminate H|].
+  destruct a as [|x2 a]; [discriminate H|]. destruct a as [|x3 a]; [discriminate H|].
+  destruct a as [|x4 a]; [discriminate H|]. destruct a as [|x5 a]; [discriminate H|].
+  destruct a as [|x6 a]; [discriminate H|]. destruct a as [|x7 a]; [discriminate H|].
+  destruct a as [|x8 a]; [|discriminate H]. clear H. invF.
+  destruct i as [|i].
+  { start_i Hz.
+    dz x1 ltac:(dz x2 ltac:(dz x3 ltac:(dz x4 ltac:(dz x5 ltac:(dz x6 ltac:(dz x7 ltac:(leaf))))))). }
+  destruct i as [|i].
+  { start_i Hz. dz x2 ltac:(dz x3 ltac:(dz x4 ltac:(dz x5 ltac:(dz x6 ltac:(dz x7 ltac:(leaf)))))). }
+  destruct i as [|i].
+  { start_i Hz. dz x3 ltac:(dz x4 ltac:(dz x5 ltac:(dz x6 ltac:(dz x7 ltac:(leaf))))). }
+  destruct i as [|i].
+  { start_i Hz. dz x4 ltac:(dz x5 ltac:(dz x6 ltac:(dz x7 ltac:(leaf)))). }
+  destruct i as [|i].
+  { start_i Hz. dz x5 ltac:(dz x6 ltac:(dz x7 ltac:(leaf))). }
+  destruct i as [|i].
+  { start_i Hz. dz x6 ltac:(dz x7 ltac:(leaf)). }
+  destruct i as [|i].
+  { start_i Hz. dz x7 ltac:(leaf). }
+  destruct i as [|i].
+  { start_i Hz. leaf. }
   lia.
 Qed.
 
